@@ -552,6 +552,25 @@ theorem c10_broken_never_complete_partial (cfg : Cfg) (st : St) (e : End) (hv : 
       (by rcases he with h | h <;> simp [h])
     exact ⟨a, b, d⟩
 
+/-- `c10_failure_isolated` of DESIGN §6 for HTTP/1.x: a backend failure while a response is being
+    relayed never leaves the client connection open in a state where the next request's response
+    could be mistaken for the rest of this one — the failed relay clears keep-alive (the
+    connection is closed after the aborted message), and whenever keep-alive does survive
+    write-prepare the message announces its own length.
+    MISSING: HTTP/2 (RST_STREAM on the affected stream only, other streams untouched) — h2.c is
+    not modelled; the harness observes END_STREAM there (reported). -/
+theorem c10_failure_isolated_partial (cfg : Cfg) (st : St) (e : End) (hv : cfg.ver ≤ 1) (hh : cfg.head = false)
+    (hc : st.cstate = .write) (ho : st.open_ = true) (hs : st.started = true) (hf : st.finished = false)
+    (he : e = .rst ∨ e = .err) :
+    (onEnd cfg st e).keepAlive = false ∧
+    ((writePrepare cfg st).keepAlive = true →
+      (writePrepare cfg st).status = 204 ∨ (writePrepare cfg st).status = 304 ∨
+      hasHdr (writePrepare cfg st).headers nContentLength = true ∨
+      hasHdr (writePrepare cfg st).headers nTransferEncoding = true ∨
+      hasHdr (writePrepare cfg st).headers nUpgrade = true) :=
+  ⟨(c10_failure_after_head_aborts cfg st e hv hc ho hs hf (by rcases he with h | h <;> simp [h])).1,
+   fun hk => c10_keepalive_requires_framing cfg st hv hh hk⟩
+
 /-- The full `c10_broken_never_complete` is FALSE of the code: with stream-response-body = 0 a
     chunked backend response that the backend cuts off after the first chunk (no last-chunk, EOF)
     reaches the HTTP/1.1 client as a complete `200` with `Content-Length: 5` on a kept-alive
